@@ -4,8 +4,14 @@ import PewProofs.Otsu
 
 `hist`/`edges` are what `np.histogram(x, bins=n)` returned (`n = 256` in the code; the theorems
 hold for every `n ≥ 2`), `cs = centres edges`.  Hypotheses: `edges.length = hist.length + 1`
-(NumPy's contract) and strictly increasing edges (at least two distinct finite values). -/
+(NumPy's contract), strictly increasing edges (at least two distinct finite values), and - for the statements about
+the criterion - occupied end bins (`1 ≤ hist[0]`, `1 ≤ hist[n-1]`): the histogram of data with two distinct values
+has them (`end_bins_occupied`), and without them floating point produces `0/0` (`first_bin_empty_returns_first_centre`).
+
+The mechanism the theorems speak about is the NaN-carrying one (`critListN`, `argmaxN`, `otsuHistN`). -/
 namespace Pew.Otsu
+
+/-! ## `np.argmax` -/
 
 /-- `np.argmax` semantics used by the model: the returned index is in range, no entry is larger,
 and every earlier entry is strictly smaller (first maximum) -/
@@ -15,22 +21,49 @@ theorem argmax_maximal (l : List Rat) (hne : l ≠ []) :
       (j < argmaxFirst l → l.getD j 0 < l.getD (argmaxFirst l) 0) :=
   argmaxFirst_spec l hne
 
-/-- the cumulative-sum alignment: the criterion array of the mechanism
-(`cumsum`, reversed `cumsum`, `[:-1]` against `[1:]`) is, entry by entry, the between-class
-criterion `W1·W2·(μ1 − μ2)²` of the cut "class 1 = bins ≤ i, class 2 = bins > i", for all cuts -/
+/-- `np.argmax` on an array with NaN: the position of the first NaN (every earlier entry is a number); on an array
+without NaN it is the first maximum -/
+theorem argmax_nan (l : List (Option Rat)) :
+    (none ∈ l → argmaxN l < l.length ∧ l[argmaxN l]? = some none ∧
+      ∀ j, j < argmaxN l → ∃ v, l[j]? = some (some v)) ∧
+    (∀ l' : List Rat, l = l'.map some → argmaxN l = argmaxFirst l') :=
+  ⟨argmaxN_spec_nan l, fun l' h => by rw [h]; exact argmaxN_map_some l'⟩
+
+example : argmaxN [some 1, none, some 3, none] = 1 ∧ argmaxN [some 1, some 3, some 3] = 1 := by decide +kernel
+
+/-! ## the criterion -/
+
+/-- the cumulative-sum alignment, floating-point division included: entry `i` of the criterion array of the mechanism
+(`cumsum`, reversed `cumsum`, `[:-1]` against `[1:]`) is NaN exactly when one of the two classes of the cut
+"class 1 = bins ≤ i, class 2 = bins > i" is empty, and otherwise the between-class criterion `W1·W2·(μ1 − μ2)²` of
+that cut; with both end bins occupied no entry is NaN and the whole array is the brute-force specification -/
 theorem crit_is_between_class_variance (hist : List Nat) (cs : List Rat)
     (hc : cs.length = hist.length) :
-    critList hist cs = specCritList hist cs ∧
-    ∀ i, i + 1 < hist.length → (critList hist cs)[i]? = some (specCrit hist cs i) :=
-  ⟨critList_eq_spec hist cs hc, critList_getElem? hist cs hc⟩
+    (∀ i, i + 1 < hist.length → (critListN hist cs)[i]? = some
+      (if (cutSums hist cs i).1 = 0 ∨ (cutSums hist cs i).2.1 = 0 then none else some (specCrit hist cs i))) ∧
+    (1 ≤ hist.getD 0 0 → 1 ≤ hist.getD (hist.length - 1) 0 →
+      critListN hist cs = (specCritList hist cs).map some) := by
+  refine ⟨fun i hi => critListN_getElem? hist cs hc i hi, fun h0 hl => ?_⟩
+  rw [critListN_eq_some hist cs hc h0 hl, critList_eq_spec hist cs hc]
+
+/-- why `none` is NaN and never ±inf: a class without weight has no moment either, so wherever the mechanism divides by
+zero the dividend is zero as well (`0/0`) -/
+theorem zero_over_zero (hist : List Nat) (cs : List Rat) (i : Nat) :
+    ((cutSums hist cs i).1 = 0 → (cutSums hist cs i).2.2.1 = 0) ∧
+    ((cutSums hist cs i).2.1 = 0 → (cutSums hist cs i).2.2.2 = 0) :=
+  ⟨prefix_moment_zero hist cs i, suffix_moment_zero hist cs i⟩
+
+example : cutSums [0, 0, 3, 2] [1/2, 3/2, 5/2, 7/2] 1 = (0, 5, 0, 29/2) := by decide +kernel
 
 /-- the returned value is the centre of a bin `i ≤ n − 2` whose cut maximises the between-class
 criterion over all cut points, and it is the first such bin -/
 theorem otsu_maximises (hist : List Nat) (edges : List Rat) (hn : 2 ≤ hist.length)
-    (he : edges.length = hist.length + 1) :
-    ∃ i, i + 1 < hist.length ∧ otsuHist hist edges = (centres edges).getD i 0 ∧
+    (he : edges.length = hist.length + 1)
+    (h0 : 1 ≤ hist.getD 0 0) (hl : 1 ≤ hist.getD (hist.length - 1) 0) :
+    ∃ i, i + 1 < hist.length ∧ otsuHistN hist edges = (centres edges).getD i 0 ∧
       (∀ j, j + 1 < hist.length → specCrit hist (centres edges) j ≤ specCrit hist (centres edges) i) ∧
       (∀ j, j < i → specCrit hist (centres edges) j < specCrit hist (centres edges) i) := by
+  rw [otsuHistN_eq hist edges he h0 hl]
   have hcl : (centres edges).length = hist.length := by simp [he]
   have hlen := critList_length hist (centres edges) hcl
   have hne : critList hist (centres edges) ≠ [] := by
@@ -48,14 +81,154 @@ theorem otsu_maximises (hist : List Nat) (edges : List Rat) (hn : 2 ≤ hist.len
     have := (hmax j (by omega)).2 hj
     rwa [key j (by omega), key _ (by omega)] at this
 
+/-- why the hypothesis on the end bins is there: with an empty first bin the first criterion entry is `0/0`,
+`np.argmax` returns 0 and the first centre comes back, whatever the rest of the histogram -/
+theorem first_bin_empty_returns_first_centre (hist : List Nat) (edges : List Rat) (hn : 2 ≤ hist.length)
+    (he : edges.length = hist.length + 1) (h0 : hist.getD 0 0 = 0) :
+    (critListN hist (centres edges))[0]? = some none ∧ otsuHistN hist edges = (centres edges).getD 0 0 :=
+  otsuHistN_first_empty hist edges hn he h0
+
 /-- the threshold is a bin centre strictly between the first and the last edge (= min and max of
-the data): in particular it lies in [min, max) -/
+the data): in particular it lies in [min, max).  (No hypothesis on the bins: also on the NaN path.) -/
 theorem is_centre_in_range (hist : List Nat) (edges : List Rat) (hn : 2 ≤ hist.length)
     (he : edges.length = hist.length + 1) (hp : edges.Pairwise (· < ·)) :
-    edges.getD 0 0 < otsuHist hist edges ∧ otsuHist hist edges < edges.getD hist.length 0 :=
-  otsuHist_in_range hist edges hn he hp
+    edges.getD 0 0 < otsuHistN hist edges ∧ otsuHistN hist edges < edges.getD hist.length 0 :=
+  otsuHistN_in_range hist edges hn he hp
 
-/-- data level (exact uniform binning): min < threshold < max whenever there are two distinct values -/
+/-! ## runs of empty bins: which maximiser comes back -/
+
+/-- **Cuts in a run of empty bins are the same cut.**  `classStart hist i` is the first cut of the run of cuts that
+`i` lies in (all bins after it, up to bin `i`, are empty).  The four sums the criterion is computed from - entry `i` of
+the forward cumulative sums and entry `i + 1` of the backward ones, of `hist` and of `hist * bin_centers` - are the
+same at both cuts, hence so is the criterion: the floating-point computation sees identical operands, and
+`np.argmax`, which returns the first maximum, can only return the first cut of a run. -/
+theorem empty_run_ties (hist : List Nat) (cs : List Rat) (i : Nat) :
+    classStart hist i ≤ i ∧
+    (∀ j, classStart hist i < j → j ≤ i → hist.getD j 0 = 0) ∧
+    cutSums hist cs (classStart hist i) = cutSums hist cs i ∧
+    specCrit hist cs (classStart hist i) = specCrit hist cs i := by
+  refine ⟨classStart_le hist i, fun j h1 h2 => classStart_empty_between hist i j h1 h2,
+    cutSums_classStart hist cs i, ?_⟩
+  rw [specCrit_eq_cutSums, specCrit_eq_cutSums, cutSums_classStart]
+
+/-- the cut the mechanism returns is the first cut of its run -/
+theorem returned_is_first_of_run (hist : List Nat) (edges : List Rat) (hn : 2 ≤ hist.length)
+    (he : edges.length = hist.length + 1)
+    (h0 : 1 ≤ hist.getD 0 0) (hl : 1 ≤ hist.getD (hist.length - 1) 0) :
+    classStart hist (argmaxN (critListN hist (centres edges))) = argmaxN (critListN hist (centres edges)) := by
+  have hcl : (centres edges).length = hist.length := by simp [he]
+  rw [critListN_eq_some hist _ hcl h0 hl, argmaxN_map_some]
+  have hlen := critList_length hist (centres edges) hcl
+  have hne : critList hist (centres edges) ≠ [] := by
+    intro h; rw [h] at hlen; simp at hlen; omega
+  obtain ⟨hlt, hmax⟩ := argmaxFirst_spec _ hne
+  generalize argmaxFirst (critList hist (centres edges)) = r at *
+  have hle := classStart_le hist r
+  rcases Nat.lt_or_ge (classStart hist r) r with hlt' | hge
+  · exfalso
+    have key : ∀ j, j + 1 < hist.length →
+        (critList hist (centres edges)).getD j 0 = specCrit hist (centres edges) j := by
+      intro j hj
+      rw [List.getD_eq_getElem?_getD, critList_getElem? hist _ hcl j hj]; rfl
+    have := (hmax (classStart hist r) (by omega)).2 hlt'
+    rw [key _ (by omega), key _ (by omega), (empty_run_ties hist (centres edges) r).2.2.2] at this
+    exact lt_irrefl _ this
+  · omega
+
+example : (List.range 5).map (classStart [2, 0, 0, 3, 0, 1]) = [0, 0, 0, 3, 3] := by decide
+
+/-! ## binning -/
+
+/-- **`binByEdges` is the bin of NumPy's documentation.**  For increasing edges `e_0 < … < e_n` and `x ≥ e_0` the
+result `k` is a bin (`k ≤ n − 1`) with `e_k ≤ x`, and `x < e_{k+1}` unless `k` is the last bin (which is closed);
+and it is the only such `k`. -/
+theorem bin_by_edges_is_the_bin (edges : List Rat) (n : Nat) (hn : 1 ≤ n) (he : edges.length = n + 1)
+    (hp : edges.Pairwise (· < ·)) (x : Rat) (h0 : edges.getD 0 0 ≤ x) :
+    (binByEdges edges x ≤ n - 1 ∧ edges.getD (binByEdges edges x) 0 ≤ x ∧
+      (binByEdges edges x < n - 1 → x < edges.getD (binByEdges edges x + 1) 0)) ∧
+    ∀ k, k ≤ n - 1 → edges.getD k 0 ≤ x → (k < n - 1 → x < edges.getD (k + 1) 0) → k = binByEdges edges x := by
+  have hs := binByEdges_spec edges n hn he hp x h0
+  refine ⟨hs, fun k hk a1 a2 => ?_⟩
+  exact bin_unique edges n he hp x k _ hk hs.1 a1 a2 hs.2.1 hs.2.2
+
+/-- **NumPy's correction steps.**  `np.histogram` estimates the bin as `trunc(((x − first) / (last − first)) · n)`
+in floating point, moves an estimate `n` to `n − 1`, decrements it when `x < edges[i]` and increments it when
+`x ≥ edges[i + 1]` (not in the last bin).  Whenever the estimate is the bin the edges prescribe or one beside it, the
+result is that bin - for every value and every increasing list of edges.  (The check evaluates `npBin` on the estimate
+the `Float` model computes - also when it is further off - and reports whether this hypothesis held.) -/
+theorem np_bin_correct (edges : List Rat) (n : Nat) (hn : 1 ≤ n) (he : edges.length = n + 1)
+    (hp : edges.Pairwise (· < ·)) (x : Rat) (h0 : edges.getD 0 0 ≤ x) (est : Nat)
+    (hest : est = binByEdges edges x ∨ est = binByEdges edges x + 1 ∨ est + 1 = binByEdges edges x) :
+    npBin edges n est x = binByEdges edges x :=
+  npBin_eq edges n hn he hp x h0 est hest
+
+/-- for a whole array: NumPy's counts are the counts against the edges -/
+theorem np_histogram_by_edges (edges : List Rat) (n : Nat) (hn : 1 ≤ n) (he : edges.length = n + 1)
+    (hp : edges.Pairwise (· < ·)) (xs : List Rat) (ests : List Nat) (hl : ests.length = xs.length)
+    (h0 : ∀ x ∈ xs, edges.getD 0 0 ≤ x)
+    (hest : ∀ i (h : i < xs.length), ests.getD i 0 = binByEdges edges xs[i] ∨
+      ests.getD i 0 = binByEdges edges xs[i] + 1 ∨ ests.getD i 0 + 1 = binByEdges edges xs[i]) :
+    countBins (List.zipWith (fun e x => npBin edges n e x) ests xs) n = histogramE edges xs := by
+  unfold histogramE
+  rw [he, Nat.add_sub_cancel]
+  congr 1
+  apply List.ext_getElem
+  · simp [hl]
+  · intro i h1 h2
+    have hi : i < xs.length := by simpa using h2
+    have hi' : i < ests.length := by omega
+    simp only [List.getElem_zipWith, List.getElem_map]
+    have := hest i hi
+    rw [List.getD_eq_getElem?_getD, List.getElem?_eq_getElem hi'] at this
+    exact npBin_eq edges n hn he hp _ (h0 _ (List.getElem_mem hi)) _ this
+
+example : npBin [0, 1, 2, 3, 4] 4 4 4 = 3 ∧ npBin [0, 1, 2, 3, 4] 4 2 2 = 2 ∧ npBin [0, 1, 2, 3, 4] 4 1 2 = 2 ∧
+    npBin [0, 1, 2, 3, 4] 4 3 (5/2) = 2 ∧ binByEdges [0, 1, 2, 3, 4] (5/2) = 2 ∧ binByEdges [0, 1, 2, 3, 4] 4 = 3 := by
+  decide +kernel
+
+/-- the exact uniform histogram (`bin = ⌊(x − min)/(max − min)·n⌋`, the maximum into the last bin) is the histogram
+against the exact uniform edges -/
+theorem uniform_binning_is_by_edges (xs : List Rat) (n : Nat) (hn : 1 ≤ n) (h : minL xs < maxL xs) :
+    histogram xs n = (histogramE (uniformEdges (minL xs) (maxL xs) n) xs, uniformEdges (minL xs) (maxL xs) n) :=
+  histogram_eq_histogramE xs n hn h
+
+/-! ## data level: any increasing edges from the minimum to the maximum (NumPy's floating-point edges, or the exact
+uniform ones) -/
+
+/-- no division by zero anywhere in the mechanism: for data binned against increasing edges that start at its
+minimum and end at its maximum the first and the last bin are never empty, hence both class weights are positive at
+every cut point - the class means `u1`, `u2` are genuine quotients and the criterion holds no NaN -/
+theorem end_bins_occupied (edges xs : List Rat) (n : Nat) (hn : 2 ≤ n) (he : edges.length = n + 1)
+    (hp : edges.Pairwise (· < ·)) (hmin : edges.getD 0 0 ∈ xs) (hmax : edges.getD n 0 ∈ xs) :
+    (histogramE edges xs).length = n ∧
+    1 ≤ (histogramE edges xs).getD 0 0 ∧ 1 ≤ (histogramE edges xs).getD (n - 1) 0 ∧
+    (∀ i, i + 1 < n → 0 < (cutSums (histogramE edges xs) (centres edges) i).1 ∧
+      0 < (cutSums (histogramE edges xs) (centres edges) i).2.1) ∧
+    critListN (histogramE edges xs) (centres edges) = (specCritList (histogramE edges xs) (centres edges)).map some := by
+  have hl : (histogramE edges xs).length = n := by rw [histogramE_length, he]; omega
+  obtain ⟨g0, g1⟩ := histogramE_end_bins edges xs n (by omega) he hp hmin hmax
+  refine ⟨hl, g0, g1, ?_, ?_⟩
+  · intro i hi
+    exact class_weights_pos (histogramE edges xs) g0 (by rw [hl]; exact g1) i (by rw [hl]; exact hi)
+  · exact (crit_is_between_class_variance _ _ (by simp [he, hl])).2 g0 (by rw [hl]; exact g1)
+
+/-- min < threshold < max -/
+theorem threshold_between_edges (edges xs : List Rat) (n : Nat) (hn : 2 ≤ n) (he : edges.length = n + 1)
+    (hp : edges.Pairwise (· < ·)) :
+    edges.getD 0 0 < otsuEdges edges xs ∧ otsuEdges edges xs < edges.getD n 0 :=
+  otsuEdges_in_range edges xs n hn he hp
+
+/-- multiplying data and edges by any positive factor multiplies the threshold by the same factor (for a power of
+two the floating-point edges of the scaled data are the scaled edges, bit for bit, short of over/underflow) -/
+theorem scale_invariant_edges (c : Rat) (hc : 0 < c) (edges xs : List Rat) (n : Nat) (hn : 1 ≤ n)
+    (he : edges.length = n + 1) (hp : edges.Pairwise (· < ·))
+    (hmin : edges.getD 0 0 ∈ xs) (hmax : edges.getD n 0 ∈ xs) :
+    otsuEdges (edges.map (c * ·)) (xs.map (c * ·)) = c * otsuEdges edges xs :=
+  otsuEdges_scale c hc edges xs n hn he hp hmin hmax
+
+/-! ## data level, exact uniform binning -/
+
+/-- min < threshold < max whenever there are two distinct values -/
 theorem threshold_between_min_max (xs : List Rat) (n : Nat) (hn : 2 ≤ n) (h : minL xs < maxL xs) :
     minL xs < otsuData xs n ∧ otsuData xs n < maxL xs :=
   otsuData_in_range xs n hn h
@@ -79,6 +252,13 @@ theorem two_valued_separates (a b : Rat) (hab : a < b) (xs : List Rat) (n : Nat)
   rw [e1, e2] at this
   exact ⟨not_lt.mpr this.1.le, this.2⟩
 
+/-- the same against any increasing edges from `a` to `b` (NumPy's) -/
+theorem two_valued_separates_edges (edges xs : List Rat) (n : Nat) (hn : 2 ≤ n) (he : edges.length = n + 1)
+    (hp : edges.Pairwise (· < ·)) :
+    ¬ (edges.getD 0 0 > otsuEdges edges xs) ∧ edges.getD n 0 > otsuEdges edges xs := by
+  have := otsuEdges_in_range edges xs n hn he hp
+  exact ⟨not_lt.mpr this.1.le, this.2⟩
+
 /-- multiplying the data by any positive factor multiplies the threshold by the same factor
 (exact arithmetic; for powers of two the float computation scales exactly as well) -/
 theorem scale_invariant (c : Rat) (hc : 0 < c) (xs : List Rat) (n : Nat) (h : minL xs < maxL xs) :
@@ -87,23 +267,14 @@ theorem scale_invariant (c : Rat) (hc : 0 < c) (xs : List Rat) (n : Nat) (h : mi
 
 /-- from the histogram on: scaling the edges scales the threshold -/
 theorem scale_invariant_hist (c : Rat) (hc : 0 < c) (hist : List Nat) (edges : List Rat)
-    (he : edges.length = hist.length + 1) :
-    otsuHist hist (edges.map (c * ·)) = c * otsuHist hist edges :=
-  otsuHist_scale c hc hist edges he
+    (he : edges.length = hist.length + 1)
+    (h0 : 1 ≤ hist.getD 0 0) (hl : 1 ≤ hist.getD (hist.length - 1) 0) :
+    otsuHistN hist (edges.map (c * ·)) = c * otsuHistN hist edges := by
+  rw [otsuHistN_eq hist _ (by simpa using he) h0 hl, otsuHistN_eq hist edges he h0 hl]
+  exact otsuHist_scale c hc hist edges he
 
-/-- with NaN removal requested the result is that of the data without its NaNs, wherever the
-NaNs sit -/
-theorem nan_removed (ys : List Rat) (xs : List (Option Rat)) (n : Nat) (h : xs.filterMap id = ys) :
-    otsuRemoveNan xs n = otsuData ys n := by
-  unfold otsuRemoveNan; rw [h]
-
-theorem nan_interleave (a b : List (Option Rat)) (n : Nat) :
-    otsuRemoveNan (a ++ none :: b) n = otsuRemoveNan (a ++ b) n := by
-  unfold otsuRemoveNan; simp [List.filterMap_append]
-
-/-- no division by zero anywhere in the mechanism: for data with two distinct values the first and the
-last bin are never empty (they hold min and max), hence both class weights are positive at every
-cut point — the class means `u1`, `u2` are genuine quotients -/
+/-- exact uniform binning: the first and the last bin are never empty (they hold min and max), both class weights are
+positive at every cut point -/
 theorem class_weights_positive (xs : List Rat) (n : Nat) (hn : 2 ≤ n) (h : minL xs < maxL xs)
     (i : Nat) (hi : i + 1 < n) :
     0 < sumR (((histogram xs n).1.map (fun (k : Nat) => (k : Rat))).take (i + 1)) ∧
@@ -111,22 +282,83 @@ theorem class_weights_positive (xs : List Rat) (n : Nat) (hn : 2 ≤ n) (h : min
   obtain ⟨hl, h0, h1⟩ := histogram_end_bins xs n hn h
   exact class_weights_pos (histogram xs n).1 h0 (by rw [hl]; exact h1) i (by rw [hl]; exact hi)
 
+/-! ## NaN -/
+
+/-- **With NaN removal requested the result is that of the data without its NaNs.**  `otsuArr` follows the code on an
+array that may hold NaN (`none`): the boolean mask `x[~np.isnan(x)]`, then `np.histogram` with its NaN-propagating
+`min`/`max`, its range check and its `keep` comparison.  For every array - NaNs anywhere, any number of them - the
+call with removal equals the call without removal on the array of its numbers, in their order. -/
+theorem nan_removed (xs : List (Option Rat)) (n : Nat) :
+    otsuArr true xs n = otsuArr false ((xs.filterMap id).map some) n := by
+  unfold otsuArr
+  simp only [if_true, Bool.false_eq_true, if_false]
+  rw [maskSelect_notNan]
+
+/-- hence two arrays with the same numbers in the same order give the same threshold wherever their NaNs sit -/
+theorem nan_interleave (xs ys : List (Option Rat)) (n : Nat) (h : xs.filterMap id = ys.filterMap id) :
+    otsuArr true xs n = otsuArr true ys n := by
+  rw [nan_removed, nan_removed, h]
+
+/-- without removal a NaN makes the call raise: `min`/`max` are NaN and `np.histogram` refuses the range -/
+theorem nan_kept_raises (xs : List (Option Rat)) (n : Nat) (h : none ∈ xs) : otsuArr false xs n = none := by
+  unfold otsuArr histogramN
+  simp only [Bool.false_eq_true, if_false]
+  rw [outerEdges_nan xs h]
+  rfl
+
+/-- and with at least two distinct numbers the result is `otsuData` of the numbers (the NaN-free model the data-level
+theorems are about): no call raises, no NaN arises in the criterion -/
+theorem nan_removed_is_data (xs : List (Option Rat)) (n : Nat) (hn : 2 ≤ n)
+    (h : minL (xs.filterMap id) < maxL (xs.filterMap id)) :
+    otsuArr true xs n = some (otsuData (xs.filterMap id) n) := by
+  rw [nan_removed, otsuArr_false_map_some _ (ne_nil_of_min_lt_max _ h), otsuHistN_histogram _ n hn h]
+
 /-! ## non-vacuity -/
 
 def exHist : List Nat := [2, 0, 1, 3]
 def exEdges : List Rat := [0, 1, 2, 3, 4]
 
-example : 2 ≤ exHist.length ∧ exEdges.length = exHist.length + 1 ∧ exEdges.Pairwise (· < ·) := by
+example : 2 ≤ exHist.length ∧ exEdges.length = exHist.length + 1 ∧ exEdges.Pairwise (· < ·) ∧
+    1 ≤ exHist.getD 0 0 ∧ 1 ≤ exHist.getD (exHist.length - 1) 0 := by
   decide +kernel
-example : critList exHist (centres exEdges) = [121/2, 121/2, 49] ∧ otsuHist exHist exEdges = 1/2 := by
+example : critListN exHist (centres exEdges) = [some (121/2), some (121/2), some 49] ∧ otsuHistN exHist exEdges = 1/2 := by
   decide +kernel
 example : critList exHist (centres exEdges) ≠ [] := by decide +kernel
+-- an empty first bin: NaN, the first centre
+example : critListN [0, 3, 0, 2] (centres exEdges) = [none, some 24, some 24] ∧ otsuHistN [0, 3, 0, 2] exEdges = 1/2 := by
+  decide +kernel
+-- an empty last bin: the first cut whose upper class is empty
+example : critListN [2, 1, 0, 0] (centres exEdges) = [some (2/1), none, none] ∧ otsuHistN [2, 1, 0, 0] exEdges = 3/2 := by
+  decide +kernel
 -- two distinct values, two-valued data, NaNs interleaved
 example : minL [1, 3, 1, 3, 3] < maxL [1, 3, 1, 3, 3] := by decide +kernel
 example : otsuData [1, 3, 1, 3, 3] 4 = 5/4 := by decide +kernel
 example : histogram [1, 2, 1, 4, 5, 5] 4 = ([2, 1, 0, 3], [1, 2, 3, 4, 5]) ∧ otsuData [1, 2, 1, 4, 5, 5] 4 = 5/2 := by
   decide +kernel
-example : otsuRemoveNan [some 1, none, some 3, some 1, none, some 3, some 3] 4 = 5/4 := by decide +kernel
+example : otsuArr true [some 1, none, some 3, some 1, none, some 3, some 3] 4 = some (5/4) ∧
+    otsuArr false [some 1, none, some 3] 4 = none ∧ otsuArr false [some 1, some 3, some 1, some 3, some 3] 4 = some (5/4) := by
+  decide +kernel
 example : otsuData ([1, 3, 1, 3, 3].map ((8 : Rat) * ·)) 4 = 8 * (5/4) := by decide +kernel
+-- edges from the minimum to the maximum
+example : ([1, 2, 3, 4, 5] : List Rat).Pairwise (· < ·) ∧ ([1, 2, 3, 4, 5] : List Rat).getD 0 0 ∈ ([1, 2, 1, 4, 5, 5] : List Rat) ∧
+    ([1, 2, 3, 4, 5] : List Rat).getD 4 0 ∈ ([1, 2, 1, 4, 5, 5] : List Rat) ∧
+    histogramE [1, 2, 3, 4, 5] [1, 2, 1, 4, 5, 5] = [2, 1, 0, 3] ∧ otsuEdges [1, 2, 3, 4, 5] [1, 2, 1, 4, 5, 5] = 5/2 := by
+  decide +kernel
+
+/-! ## `np.histogram` in double precision: Lean's `Float` operations are those of `Float.Model` (IEEE-754 binary64),
+which the kernel evaluates - the same definitions the compiled driver runs natively -/
+
+/-- 0.1, 0.7 and three values in between, four bins: the edges `linspace(0.1, 0.7, 5)` as NumPy rounds them, the index
+estimates before the correction steps, the counts -/
+example : (match npHistogram [0.1, 0.7, 0.25, 0.4, 0.55] 4 with
+    | .ok r => (r.hist, r.edges.map Float.toBits, r.ests)
+    | .error _ => ([], [], [])) =
+    ([1, 1, 1, 2], [(0.1 : Float), 0.25, 0.4, 0.5499999999999999, 0.7].map Float.toBits, [0, 4, 1, 2, 3]) := by
+  decide +kernel
+
+/-- NumPy's fourth edge 0.5499999999999999 is not the double nearest to 0.1 + 3·0.15; exact values of doubles -/
+example : f64ToRat 0.5499999999999999 < f64ToRat 0.55 ∧ f64ToRat 0.25 = 1/4 ∧ f64ToRat (-1.5) = -3/2 ∧
+    f64ToRat 5e-324 = 1 / 2 ^ 1074 := by
+  decide +kernel
 
 end Pew.Otsu
